@@ -35,6 +35,8 @@ struct TxRec {
     Dump dump; bool have_dump = false; bool dump_at_complete = false;
     int64_t offered_at_start[2] = {0, 0}; // bytes offered to each direction when the tx first appeared
     int64_t last_msglen[2] = {0, 0};
+    bool decomp_restart_lost_input = false;   // a decompressor restart happened after input of earlier calls had been consumed
+    int max_layers = 0;              // longest decompressor chain seen while body data was delivered
     std::string lenient_site[2];     // lenient-parsing call site (guarded probe) that delivered data for this side, if any
 };
 
